@@ -19,7 +19,7 @@
 (***************************************************************************)
 EXTENDS Integers, Sequences, FiniteSets, TLC, Json, IOUtils
 
-CONSTANTS MaxTop, Focus, Variant    \* Variant: "tags" | "filters" | "comments" | "mixed" | "breaks"
+CONSTANTS MaxTop, Focus, Variant    \* Variant: "tags" | "filters" | "comments" | "mixed" | "breaks" | "markers"
 
 \* the line separator of the template text: every separator str.splitlines() knows starts a new line
 Seps == <<"\n", "\r\n", "\r", "\f">>
@@ -33,6 +33,13 @@ vars == <<prog, sep>>
 Item(k, f, left, ctx, plural, count, site, c) ==
   [k |-> k, f |-> f, left |-> left, ctx |-> ctx, plural |-> plural, count |-> count, site |-> site, c |-> c]
 Tag(ctx, plural, count, text) == Item("tag", "translate", text, ctx, plural, count, "tag", "")
+\* a translate tag whose message variable carries whitespace-control markers (c: side and marker); the message id,
+\* the lookup and the printed text are those of the unmarked tag - a marker inside a message is not whitespace control of
+\* the page (C18)
+TagM(ctx, plural, count, text, mk) == Item("tag", "translate", text, ctx, plural, count, "tag", mk)
+Marks == {"l-", "r-", "b-", "l~", "r~", "b~", "l+"}
+LM(c) == IF c \in {"l-", "b-"} THEN "-" ELSE IF c \in {"l~", "b~"} THEN "~" ELSE IF c = "l+" THEN "+" ELSE ""
+RM(c) == IF c \in {"r-", "b-"} THEN "-" ELSE IF c \in {"r~", "b~"} THEN "~" ELSE ""
 Flt(f, left, ctx, plural, count, site) == Item("filter", f, left, ctx, plural, count, site, "")
 Comment(kind, text) == Item("comment", "", "", "none", "none", "none", kind, text)
 Filler(kind) == Item("filler", "", "", "none", "none", "none", kind, "")
@@ -66,8 +73,9 @@ ItemLines(it) ==
                      \o (IF it.left = "Hello, %(you)s!" THEN <<"you: 'Sue'">> ELSE IF it.left = "Dear %(you)s," THEN <<"you: m">> ELSE <<>>)
              head == "{% translate" \o (IF args = <<>> THEN "" ELSE " " \o args[1] \o (IF Len(args) > 1 THEN ", " \o args[2] ELSE "")
                                                                    \o (IF Len(args) > 2 THEN ", " \o args[3] ELSE "")) \o " %}"
-             body == IF it.left = "Hello, %(you)s!" THEN "Hello, {{ you }}!" ELSE IF it.left = "Dear %(you)s," THEN "Dear {{ you }}," ELSE it.left
-             pbody == IF it.left = "Hello, %(you)s!" THEN "Hello, {{ you }}s!" ELSE IF it.left = "Dear %(you)s," THEN "Dear {{ you }}s," ELSE "Hello, Worlds!"
+             you == "{{" \o LM(it.c) \o " you " \o RM(it.c) \o "}}"
+             body == IF it.left = "Hello, %(you)s!" THEN "Hello, " \o you \o "!" ELSE IF it.left = "Dear %(you)s," THEN "Dear " \o you \o "," ELSE it.left
+             pbody == IF it.left = "Hello, %(you)s!" THEN "Hello, " \o you \o "s!" ELSE IF it.left = "Dear %(you)s," THEN "Dear " \o you \o "s," ELSE "Hello, Worlds!"
          IN IF it.plural = "lit" THEN <<head, "  " \o body, "{% plural %}", "  " \o pbody, "{% endtranslate %}">>
             ELSE <<head \o body \o "{% endtranslate %}">>
     [] it.k = "filter" ->
@@ -271,6 +279,10 @@ PoolAt(i) ==
                                                \cup {f \in FilterPool : f.site \in {"output", "ternary-alt", "liquid"} /\ f.count \in {"none", "var"} /\ f.f \in {"t", "ngettext"}}
                                                \cup {Comment("hash", "Translators: be kind"), Filler("text")}
                                 ELSE {})
+    [] Variant = "markers"  -> (CASE i = 1 -> {Filler("text")} \cup {TagM(c, p, n, t, mk) : c \in {"none", "lit"}, p \in {"none", "lit"}, n \in {"none", "var"},
+                                                                                    t \in {"Hello, %(you)s!", "Dear %(you)s,"}, mk \in Marks}
+                                  [] i = 2 -> {TagM("none", p, "var", "Hello, %(you)s!", mk) : p \in {"none", "lit"}, mk \in Marks} \cup {Filler("text")}
+                                  [] OTHER -> {})
     [] Variant = "breaks"   -> (CASE i = 1 -> {Comment("hash", "Translators: be kind"), Filler("text"), Filler("blank")}
                                   [] i = 2 -> {Filler("text"), Tag("none", "none", "none", "Hello, World!"), Flt("t", "lit", "none", "none", "none", "output")}
                                   [] i = 3 -> {Tag("lit", "lit", "var", "Hello, World!"), Flt("gettext", "lit", "none", "none", "none", "echo"), Flt("t", "lit", "none", "none", "none", "if-body")}
@@ -286,5 +298,6 @@ Export ==
                     extracted |-> Extracted(prog),
                     calls |-> [n \in 0..2 |-> AllCalls(prog, n)],
                     outs |-> [n \in 0..2 |-> OutOf(prog, n)],
+                    plain |-> Source([i \in DOMAIN prog |-> IF prog[i].k = "tag" THEN [prog[i] EXCEPT !.c = ""] ELSE prog[i]]),
                     literal |-> [i \in DOMAIN prog |-> LiteralCall(prog[i])]]) \o "\n", IOEnv.OUT_FILE, Opt).exitValue = 0
 =============================================================================
